@@ -343,6 +343,23 @@ func runC15AcceptorSet(c *Ctx, reg *memReg) {
 	if (reported == "a1") != (mField == 3) || withNew != wantNew || withOld != wantOld {
 		r.Disagree("c15-nodes-setcookie", fmt.Sprintf("model (CookieSel.handshakeCookie): handshake cookie %d, Cookie() %d (1 = node cookie, 3 = the cookie set); implementation: Cookie()=%q, connect with the cookie set=%v, with the node cookie=%v", mHs, mField, reported, withNew, withOld), nil)
 	}
+	// … and back to "no cookie of its own": the node's cookie is the one peers are checked against again (not the empty
+	// string: an acceptor without a cookie must not accept peers that know no secret)
+	accs[0].SetCookie("")
+	reported2 := accs[0].Cookie()
+	backNew, backOld := try("a1"), try("n1")
+	mo2, merr2 := Model("handshake", []string{"accset 1 0 3,0"})
+	if merr2 == nil && len(mo2) == 1 {
+		var m2Hs, m2Field int
+		fmt.Sscanf(mo2[0], "%d %d", &m2Hs, &m2Field)
+		if (reported2 == "") != (m2Field == 0) || backNew != (m2Hs == 3) || backOld != (m2Hs == 1) {
+			r.Disagree("c15-nodes-setcookie", fmt.Sprintf("after SetCookie(\"\"): model handshake cookie %d, Cookie() %d; implementation: Cookie()=%q, connect with the cookie set before=%v, with the node cookie=%v", m2Hs, m2Field, reported2, backNew, backOld), nil)
+		}
+	}
+	r.Count(fmt.Sprintf("nodes.setcookie-empty.reported-%q.old-%v.node-%v", reported2, backNew, backOld))
+	if backNew || !backOld {
+		r.Violation("C15/acceptor-empty-cookie", fmt.Sprintf("after Acceptor.SetCookie(\"\") the acceptor must authenticate with the node cookie \"n1\": a peer presenting the previous acceptor cookie connected=%v, a peer presenting the node cookie connected=%v", backNew, backOld), nil)
+	}
 	if !withNew || withOld {
 		r.Violation("C15/acceptor-setcookie-ignored", fmt.Sprintf("after Acceptor.SetCookie(\"a1\") on an acceptor started with the node cookie \"n1\": Cookie() reports %q, a peer presenting \"a1\" connected=%v, a peer presenting \"n1\" connected=%v", reported, withNew, withOld), nil)
 	}
